@@ -104,6 +104,15 @@ func layoutRecord(rng *rand.Rand, code int, codeTag string, fields []fieldSpec, 
 		rec["skip"] = "StructOf: " + msg
 		return rec
 	}
+	// the zero value of the layout (unset addresses, nil slices and pointers, zero dates) must encode without a panic
+	rec["enczero"] = M{"t": "err"}
+	if p, msg := guard(func() {
+		if _, err := codec.Marshal(reflect.New(t).Elem().Interface()); err == nil {
+			rec["enczero"] = M{"t": "ok"}
+		}
+	}); p {
+		rec["enczero"] = M{"t": "panic", "msg": msg}
+	}
 	msgv := reflect.New(t).Elem()
 	vals := M{}
 	fixed := map[string]fieldSpec{}
